@@ -1,7 +1,7 @@
 import ScriggoV.Lemmas.ShowValue
 /-! C08 helper lemmas, part 5: map keys come out sorted, as a permutation of the stringified
 keys (so keys that collide after stringification are all emitted, next to each other); and the
-two configuration flags of `abs` only matter where a `,string` option or a nil `[]byte` occurs. -/
+`std` flag of `abs` only matters where one of the listed encoding/json clauses applies. -/
 namespace ScriggoV.ShowValue
 open ScriggoV ScriggoV.JSON ScriggoV.Gen.ShowJS
 
@@ -99,34 +99,63 @@ theorem perm_sortByKey {α : Type} (l : List (Bytes × α)) : (sortByKey l).Perm
   | nil => simp [sortByKey]
   | cons p r ih => rw [sortByKey]; exact (perm_insertByKey p _).trans (List.Perm.cons p ih)
 
-/-! ### where the two encoding/json clauses matter -/
+/-! ### where the encoding/json clauses matter -/
 
 mutual
-/-- no serialised-or-not field carries the `,string` option and no `[]byte` is nil -/
-def stdSame : GoVal → Bool
+/-- none of the clauses in which Scriggo's output differs from encoding/json's data applies: no
+field with the `,string` or `,omitzero` option, no embedded struct whose fields encoding/json
+would promote, no nil `[]byte`, no non-nil slice of a defined byte type, and (JSON) no time
+with a fraction of a second -/
+def stdSame (m : Mode) : GoVal → Bool
   | .bytes isNil _ => !isNil
-  | .verb _ _ inner => stdSame inner
-  | .iface v => stdSame v
-  | .slice _ es => stdSameL es
-  | .array es => stdSameL es
-  | .map _ _ vs => stdSameL vs
-  | .struct fs vs => fs.all (fun f => !hasStringOpt f) && stdSameL vs
-  | .ptr _ _ e => stdSame e
+  | .nbytes isNil _ => isNil
+  | .time t => m.isJS || t.nsec == 0
+  | .verb _ _ inner => stdSame m inner
+  | .iface v => stdSame m v
+  | .slice _ es => stdSameL m es
+  | .array es => stdSameL m es
+  | .map _ _ vs => stdSameL m vs
+  | .struct fs vs =>
+    fs.all (fun f => !hasStringOpt f && !hasOmitzeroOpt f && !promoted f) && stdSameL m vs
+  | .ptr _ _ e => stdSame m e
   | _ => true
-def stdSameL : List GoVal → Bool
+def stdSameL (m : Mode) : List GoVal → Bool
   | [] => true
-  | v :: vs => stdSame v && stdSameL vs
+  | v :: vs => stdSame m v && stdSameL m vs
 end
 
+theorem fieldName_std (f : Field) (v : GoVal) (h : hasOmitzeroOpt f = false) :
+    fieldName true f v = fieldName false f v := by
+  unfold fieldName
+  by_cases h1 : f.exported = true
+  · by_cases h2 : f.tag.isEmpty = true
+    · simp [h1, h2]
+    · by_cases h3 : (f.tag == [0x2D]) = true
+      · simp [h1, h2, h3]
+      · have : ¬ (omitzeroLit ∈ (specTag f.tag).2) := by
+          simpa [hasOmitzeroOpt, tagOpts, h2, h3] using h
+        simp [h1, h2, h3, this]
+  · simp [h1]
+
+theorem fmtRFC3339Nano_whole (t : TimeRec) (h : t.nsec = 0) : fmtRFC3339Nano t = fmtRFC3339 t := by
+  unfold fmtRFC3339Nano; simp [h]
+
 mutual
-theorem abs_cfg (m : Mode) (c1 c2 : AbsCfg) : ∀ (v : GoVal), stdSame v = true → abs c1 m v = abs c2 m v
+theorem abs_std (m : Mode) : ∀ (v : GoVal), stdSame m v = true → abs true m v = abs false m v
   | .nil, _ => by rw [abs, abs]
   | .verb js json inner, h => by
     rw [stdSame] at h
-    rw [abs, abs, abs_cfg m c1 c2 inner h]
-  | .time _ _, _ => by rw [abs, abs]
+    rw [abs, abs, abs_std m inner h]
+  | .time t, h => by
+    rw [stdSame] at h
+    rw [abs, abs]
+    cases m with
+    | js => rfl
+    | json =>
+      have : t.nsec = 0 := by simpa [Mode.isJS] using h
+      simp [Mode.isJS, fmtRFC3339Nano_whole t this]
   | .err _ _, _ => by rw [abs, abs]
-  | .iface v, h => by rw [stdSame] at h; rw [abs, abs, abs_cfg m c1 c2 v h]
+  | .iface v, h => by rw [stdSame] at h; rw [abs, abs, abs_std m v h]
   | .bool _, _ => by rw [abs, abs]
   | .int _ _, _ => by rw [abs, abs]
   | .uint _ _, _ => by rw [abs, abs]
@@ -137,29 +166,37 @@ theorem abs_cfg (m : Mode) (c1 c2 : AbsCfg) : ∀ (v : GoVal), stdSame v = true 
     have : isNil = false := by simpa using h
     subst this
     rw [abs, abs]; simp
-  | .slice _ es, h => by rw [stdSame] at h; rw [abs, abs, absList_cfg m c1 c2 es h]
-  | .array es, h => by rw [stdSame] at h; rw [abs, abs, absList_cfg m c1 c2 es h]
-  | .ptr _ _ e, h => by rw [stdSame] at h; rw [abs, abs, abs_cfg m c1 c2 e h]
+  | .nbytes isNil b, h => by
+    rw [stdSame] at h
+    subst h
+    rw [abs, abs]; simp
+  | .slice _ es, h => by rw [stdSame] at h; rw [abs, abs, absList_std m es h]
+  | .array es, h => by rw [stdSame] at h; rw [abs, abs, absList_std m es h]
+  | .ptr _ _ e, h => by rw [stdSame] at h; rw [abs, abs, abs_std m e h]
   | .struct fs vs, h => by
     rw [stdSame, Bool.and_eq_true] at h
-    rw [abs, abs, absFields_cfg m c1 c2 fs vs h.1 h.2]
-  | .map _ ks vs, h => by rw [stdSame] at h; rw [abs, abs, absList_cfg m c1 c2 vs h]
+    rw [abs, abs, absFields_std m fs vs h.1 h.2]
+  | .map _ ks vs, h => by rw [stdSame] at h; rw [abs, abs, absList_std m vs h]
   | .other _ _, _ => by rw [abs, abs]
-theorem absList_cfg (m : Mode) (c1 c2 : AbsCfg) : ∀ (vs : List GoVal), stdSameL vs = true →
-    absList c1 m vs = absList c2 m vs
+theorem absList_std (m : Mode) : ∀ (vs : List GoVal), stdSameL m vs = true →
+    absList true m vs = absList false m vs
   | [], _ => by rw [absList, absList]
   | v :: vs, h => by
     rw [stdSameL, Bool.and_eq_true] at h
-    rw [absList, absList, abs_cfg m c1 c2 v h.1, absList_cfg m c1 c2 vs h.2]
-theorem absFields_cfg (m : Mode) (c1 c2 : AbsCfg) : ∀ (fs : List Field) (vs : List GoVal),
-    fs.all (fun f => !hasStringOpt f) = true → stdSameL vs = true →
-    absFields c1 m fs vs = absFields c2 m fs vs
+    rw [absList, absList, abs_std m v h.1, absList_std m vs h.2]
+theorem absFields_std (m : Mode) : ∀ (fs : List Field) (vs : List GoVal),
+    fs.all (fun f => !hasStringOpt f && !hasOmitzeroOpt f && !promoted f) = true → stdSameL m vs = true →
+    absFields true m fs vs = absFields false m fs vs
   | f :: fs, v :: vs, hf, h => by
     rw [stdSameL, Bool.and_eq_true] at h
-    rw [List.all_cons, Bool.and_eq_true] at hf
-    have hs : hasStringOpt f = false := by simpa using hf.1
-    rw [absFields, absFields, abs_cfg m c1 c2 v h.1, absFields_cfg m c1 c2 fs vs hf.2 h.2]
-    simp [hs]
+    rw [List.all_cons, Bool.and_eq_true, Bool.and_eq_true, Bool.and_eq_true] at hf
+    have hs : hasStringOpt f = false := by simpa using hf.1.1.1
+    have ho : hasOmitzeroOpt f = false := by simpa using hf.1.1.2
+    have hp : promoted f = false := by simpa using hf.1.2
+    rw [absFields_scriggo_cons, absFields.eq_def]
+    simp only [hp, hs, Bool.and_false, Bool.false_eq_true, if_false, fieldName_std f v ho,
+      abs_std m v h.1, absFields_std m fs vs hf.2 h.2]
+    cases fieldName false f v <;> rfl
   | [], _, _, _ => by simp [absFields]
   | _ :: _, [], _, _ => by simp [absFields]
 end
